@@ -140,13 +140,22 @@ func main() {
 	// watchdog: a run or a shrink attempt that makes no progress for 45 s (a task killed after a violation may have left
 	// a lock of the system under test held for ever) ends the process with whatever was found so far
 	go func() {
+		// staleness is counted in watchdog ticks, not read off the wall clock: a suspended VM or a stopped process makes
+		// the clock jump without the run having had a chance to progress
+		var last int64
+		stale := 0
 		for {
 			time.Sleep(2 * time.Second)
-			limit := 45 * time.Second
-			if pending.Load() {
-				limit = 8 * time.Second
+			if b := beat.Load(); b != last {
+				last, stale = b, 0
+				continue
 			}
-			if time.Since(time.Unix(0, beat.Load())) > limit {
+			stale++
+			limit := 22 // ~45 s
+			if pending.Load() {
+				limit = 4 // ~8 s
+			}
+			if stale > limit {
 				if pending.Load() {
 					// the unshrunk violation was flushed to the report file before shrinking started
 					os.Exit(0)
